@@ -1102,7 +1102,8 @@ int cif_container_get_value(
                             }
 
                             FAILURE_HANDLER(inner):
-                            free(temp);
+                            /* also releases any parts of the value that were successfully retrieved */
+                            cif_value_free(temp);
                         }
 
                         sqlite3_reset(cif->get_value_stmt);
